@@ -104,6 +104,11 @@ def run(chk):
     for case in (((3, 1), 4), ((4, 1), 3), ((2, 2), 5)):
         _grid_case(chk, case)
         n_inst += 1
+    # "for the same coupling steps": the step ends and the mid-points the QED kernels get describe ONE coupling - all of them requested in the
+    # segment's flavour number (shared with C53, evaluated with a recording coupling object)
+    from .c53 import _couplings_nf
+
+    _couplings_nf(chk, src, rule="qed-coupling-steps-in-one-flavour-number", methods=("compute_aem_list",))
     n_asm = _assembly(chk, src)
     chk.floor("assembly instances", n_asm, 4)
     chk.floor("instances", n_inst, 32 + 24)
